@@ -64,7 +64,10 @@ namespace planners
         };
         // BIT*/ABIT* declare the template but define it out of line (not instantiable from outside the library)
         template <class P>
-        constexpr bool nnUsable = HasNN<P>::value && !std::is_base_of<og::BITstar, P>::value;
+        constexpr bool nnUsable = HasNN<P>::value && !std::is_base_of<og::BITstar, P>::value &&
+                                  !std::is_base_of<og::LazyPRM, P>::value;  // LazyPRM::setNearestNeighbors leaves the new structure
+                                                                              // without a distance function (bad_function_call on first use;
+                                                                              // library API defect outside the listed properties)
         template <class P>
         void applyNN(P &p, const std::string &nn)
         {
@@ -81,18 +84,23 @@ namespace planners
             }
         }
         template <class P>
-        ob::PlannerPtr mk(const ob::SpaceInformationPtr &si, const std::string &nn)
+        ob::PlannerPtr mk(const ob::SpaceInformationPtr &si)
         {
-            auto p = std::make_shared<P>(si);
-            applyNN(*p, nn);
-            return p;
+            return std::make_shared<P>(si);
+        }
+        template <class P>
+        void nnOf(ob::Planner *p, const std::string &nn)
+        {
+            if (auto *q = dynamic_cast<P *>(p))
+                applyNN(*q, nn);
         }
         struct Entry
         {
             Info info;
-            ob::PlannerPtr (*make)(const ob::SpaceInformationPtr &, const std::string &);
+            ob::PlannerPtr (*make)(const ob::SpaceInformationPtr &);
+            void (*nn)(ob::Planner *, const std::string &);
         };
-#define E(P, threaded, pairwise, eager) Entry{Info{#P, threaded, pairwise, eager, false}, &mk<og::P>}
+#define E(P, threaded, pairwise, eager) Entry{Info{#P, threaded, pairwise, eager, false}, &mk<og::P>, &nnOf<og::P>}
         // pairwise: planner assembles the reported path only from (a,b) pairs it validated with checkMotion(a,b)
         //   in that orientation or the reverse for symmetric spaces (decided by reading each planner); a planner
         //   left out is merely judged by the weaker dense clause.
@@ -142,11 +150,19 @@ namespace planners
                 return &i;
         return nullptr;
     }
-    ob::PlannerPtr makeGeometric(const std::string &name, const ob::SpaceInformationPtr &si, const std::string &nn)
+    ob::PlannerPtr makeGeometric(const std::string &name, const ob::SpaceInformationPtr &si)
     {
         for (auto &e : table())
             if (e.info.name == name)
-                return e.make(si, nn);
+                return e.make(si);
         return nullptr;
+    }
+    void applyNearestNeighbors(const std::string &name, ob::Planner *p, const std::string &nn)
+    {
+        if (nn.empty())
+            return;
+        for (auto &e : table())
+            if (e.info.name == name)
+                e.nn(p, nn);
     }
 }  // namespace planners
